@@ -65,6 +65,7 @@ MOD = {
     "failext": "model {n} extends Nowhere{n}; Real x; equation x = 1; end {n};",
     "arr": "model {n} Real x[2]; equation x = {{1,2}}; end {n};",
     "ife": "model {n} Real x; equation x = if time > 1 then 1 else 2; end {n};",
+    "huge": "model {n} parameter Real huge = 1e400; Real x(max = 1e999, nominal = 1e-400); equation x = 1e-400 * huge; end {n};",
     "bad": "model {n} Real x; equation x = ; end {n};",
     "bad2": "model {n} Real x equation x = 1; end {n}",
     "latin1": "model {n} Real x; // café\n equation x = 1; end {n};",
@@ -80,7 +81,7 @@ CONNFLAT = {
     "Net": "model {p}Net {p}Pipe first(k = 3.0); {p}Pipe second; Real inlet; equation connect(first.b, second.a); "
            "first.a.p = inlet; inlet = 1.0; second.b.p = 0.0; end {p}Net;",
 }
-GOODKINDS = ["good", "good", "uses", "ext", "pkg"]
+GOODKINDS = ["good", "good", "uses", "ext", "pkg", "huge"]
 # -O strings.  Which spellings the tool accepts is implementation-defined and outside the property, so only the two
 # clear classes are classified by construction; the ambiguous spellings are classified by asking the implementation
 # (the option alone in an invocation where nothing else can fail) and then counted accordingly.
@@ -105,7 +106,7 @@ def gen_world(rng, wid):
         return "%s%d" % (prefix, counter[0])
 
     def add(d, kind, n=None, dep=None):
-        n = n or name({"good": "G", "uses": "U", "ext": "E", "pkg": "P", "fail": "F", "failext": "X", "arr": "A",
+        n = n or name({"good": "G", "uses": "U", "ext": "E", "pkg": "P", "huge": "H", "fail": "F", "failext": "X", "arr": "A",
                        "ife": "I", "bad": "B", "bad2": "B", "latin1": "L"}[kind])
         text = MOD[kind].format(n=n, g=dep or "")
         files["%s/%s.mo" % (d, n)] = [kind, text]
@@ -316,7 +317,7 @@ def gen_invocation(rng, world, stream):
     inv["paths"] = paths
     kind = stream
     if stream == "main":
-        kind = rng.choice(["models"] * 6 + ["parse"] * 2 + ["usage"] * 3 + ["argparse"] * 2 + ["nofiles"] + ["twins"] * 2 + ["deporder"] * 3 + ["replicas"] * 3)
+        kind = rng.choice(["models"] * 6 + ["parse"] * 2 + ["usage"] * 3 + ["argparse"] * 2 + ["nofiles"] + ["twins"] * 2 + ["deporder"] * 3 + ["replicas"] * 3 + ["incwd"] * 3)
     inv["kind"] = kind
     # ---- target and models
     inv["target"] = rng.choice([None, None, "sympy", "casadi", "casadi"])
@@ -419,6 +420,37 @@ def gen_invocation(rng, world, stream):
         for _ in range(rng.choice([0, 0, 1, 2])):
             ms.insert(rng.randint(0, len(ms)), rng.choice([rp["model"], rp["other"]]))
         inv["models"] = ms
+    elif kind == "incwd":
+        # the tool is run from inside a library directory: bare file names, `.`, `./x`, sub-directories, `../other`
+        wd = rng.choice(["libA", "libB", "conn", "site0", "core", "libA/sub"])
+        up = "../" * (wd.count("/") + 1)
+        here = sorted(os.path.basename(f) for f, (k, _t) in files.items()
+                      if os.path.dirname(f) == wd and k not in ("bad", "bad2", "latin1"))
+        cands = [rng.choice(here), rng.choice(here), ".", "./" + rng.choice(here)]
+        if wd == "libA":
+            cands.append("sub")
+        others = {"libA": ["libB"], "libB": ["libA"], "site0": ["site1"], "core": ["vendor", "draft"], "conn": ["libA"],
+                  "libA/sub": ["libA", "libB"]}[wd]
+        ps = [rng.choice(cands)]
+        if rng.random() < 0.5:
+            q = rng.choice(cands + [up + o for o in others] + [up + o for o in others])
+            if q not in ps and not (q == "." or "." in ps):
+                ps.insert(rng.randint(0, 1), q)
+        inv["paths"] = ps
+        inv["cwd"] = wd
+        inv["target"] = rng.choice(["casadi", "casadi", None, "sympy"])
+        inv["outdir"] = up + "out" if inv["target"] == "sympy" or rng.random() < 0.3 else None
+        listed = set()
+        for p in ps:
+            rp = os.path.normpath(os.path.join(wd, p))
+            for f in files:
+                if f == rp or f.startswith(rp + "/"):
+                    listed.add(os.path.basename(f)[:-3])
+        pool = sorted(n for n in listed if n in models)
+        nm3 = rng.choice([1, 1, 2, 3]) if inv["target"] else rng.choice([0, 1, 2])
+        inv["models"] = [rng.choice(pool) for _ in range(nm3)] if pool else []
+        if inv["target"] and not inv["models"]:
+            inv["target"] = None
     elif kind == "nofiles":
         inv["paths"] = rng.choice([["empty"], ["README.txt"], ["empty", "empty/notes.txt"], ["out"]])
         if inv["target"] == "casadi" or rng.random() < 0.5:
@@ -608,16 +640,19 @@ def abstract(ctx, truth, inv):
         verdict = "error"
     else:
         verdict = "ok"
-    outdir = inv["outdir"] if inv["outdir"] is not None else "."
+    wd = inv.get("cwd") or ""
+    rooted = lambda p: os.path.normpath(os.path.join(wd, p))
+    outdir = rooted(inv["outdir"] if inv["outdir"] is not None else ".")
     opts = option_values(inv["options"])
     optok = [option_ok(ctx, o) for o in inv["options"]]
     nbad = sum(1 for b in optok if not b)
-    lst = truth.listing(inv["paths"])
+    inv_paths = [rooted(p) for p in inv["paths"]]
+    lst = truth.listing(inv_paths)
     rels = [f for f, _ in lst]
     target = inv["target"] or "none"
     dirs = sorted(set(os.path.dirname(f) for f in rels))
     paths = []
-    for i, p in enumerate(inv["paths"]):
+    for i, p in enumerate(inv_paths):
         fs = []
         for f, j in lst:
             if j == i:
@@ -708,7 +743,7 @@ def clean_out(root):
                 os.remove(os.path.join(r, f))
 
 
-def run_main(root, argv):
+def run_main(root, argv, workdir=""):
     from tools import compiler
     log = logging.getLogger("pymoca")
     saved = (log.level, log.propagate)
@@ -717,7 +752,7 @@ def run_main(root, argv):
     log.propagate = False
     cwd = os.getcwd()
     clean_out(root)
-    os.chdir(root)
+    os.chdir(os.path.join(root, workdir) if workdir else root)
     try:
         with contextlib.redirect_stderr(io.StringIO()), contextlib.redirect_stdout(io.StringIO()):
             try:
@@ -772,10 +807,18 @@ def check_invocation(ctx, case, drv, independence=True):
     truth = _TRUTH.get((root, world["id"]))
     if truth is None:
         truth = _TRUTH[(root, world["id"])] = Truth(root, world)
-    with contextlib.redirect_stderr(io.StringIO()):   # ANTLR's console error listener
-        ab = abstract(ctx, truth, inv)
+    plog = logging.getLogger("pymoca")
+    keep, nh = plog.propagate, logging.NullHandler()
+    plog.addHandler(nh)
+    plog.propagate = False
+    try:
+        with contextlib.redirect_stderr(io.StringIO()):   # ANTLR's console error listener
+            ab = abstract(ctx, truth, inv)
+    finally:
+        plog.removeHandler(nh)
+        plog.propagate = keep
     exp, stage = expected_status(ab)
-    obs = run_main(root, argv)
+    obs = run_main(root, argv, inv.get("cwd") or "")
     st = status_of(obs)
     small = {"world": world, "inv": inv, "argv": argv, "stage": stage,
              "labels": [{k: v for k, v in m.items()} for m in ab["models"]],
@@ -806,7 +849,7 @@ def check_invocation(ctx, case, drv, independence=True):
         for i, m in enumerate(inv["models"]):
             inv1 = dict(inv, models=[m])
             argv1 = render_argv(inv1, random.Random(i))
-            o1 = run_main(root, argv1)
+            o1 = run_main(root, argv1, inv.get("cwd") or "")
             singles.append(status_of(o1))
             files1.update(o1["written"])
             if o1["kind"] == "return" and isinstance(o1["code"], int):
